@@ -119,6 +119,41 @@ pub fn run(em: &mut Emitter, rng: &mut Rng, thorough: bool) {
             }
         }
     }}}
+    // the rules of the mode in force hold inside a capture as well: BER-only forms (a non-minimal length, an
+    // indefinite length under DER, a definite-length constructed value under CER) are refused by a read inside
+    // `capture`, by `capture_one` and by `capture_all` exactly when a plain read refuses them
+    let members: [&[u8]; 6] = [&[0x04, 0x01, 0x61], &[0x04, 0x81, 0x01, 0x61], &[0x30, 0x80, 0x02, 0x01, 0x05, 0x00, 0x00], &[0x30, 0x03, 0x02, 0x01, 0x05],
+        &[0x30, 0x04, 0x02, 0x81, 0x01, 0x05], &[0x30, 0x80, 0x04, 0x81, 0x01, 0x61, 0x00, 0x00]];
+    let cross = |em: &mut Emitter, mode: u8, ctx: Ctx, inner: &[u8]| {
+        let data = wrap(ctx, inner);
+        let valid = value_ranges(mode, inner).is_some();
+        let n_any = value_ranges(0, inner).map(|r| r.len()).unwrap_or(0);
+        for which in 0..4u8 {
+            if ctx == Ctx::Indefinite && which != 0 && which != 3 { continue }
+            let mut ps = vec![match which { 0 => Prog::CaptureOne, 1 => Prog::CaptureAll, 2 => Prog::Capture(vec![Prog::ReadAll]),
+                _ => Prog::Capture(vec![Prog::Take { opt: false, kind: 0, exp: None, body: Body::Generic }]) }];
+            ps.push(Prog::ReadAll);
+            let ps = in_ctx(ctx, ps);
+            let need_one = which == 0 || which == 3;
+            prog_case(em, 1101, mode, &ps, &data, move |obs| {
+                let accepted = obs.first() == Some(&0);
+                if accepted == (valid && (!need_one || n_any > 0)) { Oracle::Pass } else { Oracle::Fail("capturing-applies-other-rules-than-the-mode-in-force".into()) }
+            }, true);
+        }
+    };
+    for mode in 0..3u8 { for ctx in ctxs { if !ctx_ok(mode, ctx) { continue }
+        for m in members { cross(em, mode, ctx, m); let mut two = vec![0x05u8, 0x00]; two.extend_from_slice(m); cross(em, mode, ctx, &two); let mut t3 = m.to_vec(); t3.extend_from_slice(&[0x05, 0x00]); cross(em, mode, ctx, &t3); }
+    }}
+    for _ in 0..(if thorough { 40_000 } else { 1_500 }) {
+        let mode = rng.below(3) as u8; let ctx = *rng.pick(&ctxs);
+        if !ctx_ok(mode, ctx) { continue }
+        // values encoded under the rules of another mode, with random BER length forms
+        let emode = rng.below(3) as u8;
+        let forest = random_forest(rng, emode, 3);
+        let inner = encode_forest(&forest, emode, &mut Some(rng));
+        if value_ranges(0, &inner).is_none() { continue }
+        cross(em, mode, ctx, &inner);
+    }
     for _ in 0..(if thorough { 200_000 } else { 5_000 }) {
         let mode = rng.below(3) as u8;
         let ctx = *rng.pick(&ctxs);
